@@ -97,7 +97,8 @@ def main():
                   '===', '!==', '>>>=', '++', '--', '\\\\u', '\\\\x', '0x', '1e', '/=', '=>']:
             fd.write('"%s"\n' % w.replace('"', '\\"'))
     argv = [sys.argv[0], '-runs=%d' % runs, '-seed=%d' % (seed or 1), '-max_len=300', '-dict=' + dict_path,
-            '-print_final_stats=0', '-verbosity=0', corpus]
+            '-print_final_stats=0', '-verbosity=0', '-timeout=25', '-artifact_prefix=' + os.path.join(work, ''),
+            corpus]
     atheris.Setup(argv, one)
     try:
         atheris.Fuzz()
